@@ -612,6 +612,13 @@ def run_case(spec: tuple, sampler_name: str, hist: str, seed: int, env: Env, par
             part.add("stored_values_compared")
             if sv is _MISSING or not dom.same(sv, rec["v"]):
                 kind = "type" if (sv is not _MISSING and sv == rec["v"]) else "value"
+                if kind == "type" and getattr(dom, "ambiguous", False):
+                    # choices that are ==-equal but of different types, e.g. (True, 1): the objective
+                    # receives 1, the study records True. The statement says the recorded value EQUALS
+                    # the received one, and True == 1 holds; demanding identical types here would be
+                    # more than the property states (and the code documents this choice). Counted only.
+                    part.add("obs_eq_ambiguous_choice_recorded_as_equal_value_of_other_type")
+                    continue
                 fail(f"stored-{kind}-differs[{how}]", idx, rec["v"], stored=repr(sv))
 
     check_stored(study.get_trials(deepcopy=True), "study.trials")
